@@ -35,11 +35,11 @@ func c06Values() []rx.Val {
 		rx.SetOf(rx.Date(1)), rx.SetOf(rx.Date(1), rx.Date(2)),
 		rx.SetOf(rx.Bytes([]byte{0})), rx.SetOf(rx.Bytes([]byte{0}), rx.Bytes([]byte{0, 1})), rx.SetOf(rx.Bytes([]byte{})),
 		rx.SetOf(rx.Bool(true)), rx.SetOf(rx.Bool(true), rx.Bool(false)),
-		rx.SetOf(rx.Int(1), rx.Str("a")),         // mixed-type set
-		rx.SetOf(rx.SetOf(rx.Int(1))),            // nested set
+		rx.SetOf(rx.Int(1), rx.Str("a")),        // mixed-type set
+		rx.SetOf(rx.SetOf(rx.Int(1))),           // nested set
 		rx.SetOf(rx.SetOf(rx.Bytes([]byte{0}))), // nested set of bytes
-		rx.SetOf(),                                // empty set
-		rx.SetOf(rx.Int(1), rx.Int(1)),           // duplicate element
+		rx.SetOf(),                              // empty set
+		rx.SetOf(rx.Int(1), rx.Int(1)),          // duplicate element
 	)
 	return v
 }
